@@ -381,4 +381,32 @@ def recvHeaders (cap : Nat) (c : GConn) (id : Nat) (endStream : Bool) (dep : Opt
     | none =>
       (if keep then { c' with streams := c'.streams ++ [⟨id, !endStream, false, pendingBody⟩] } else c', .new id)
 
+/-! ### the loop of h2_parse_headers_frame() with the request parser in it
+
+  `accept f` stands for "http_request_parse_header() takes the field" (any
+  predicate: pseudo-header rules, 431 limit, trailers ...).  Fields are decoded
+  and handed over one by one; at the first field that is refused the rest of the
+  block goes through h2_discard_headers_frame() — the same decoding loop, fields
+  dropped — and that is so for a new request (r->http_status == 0, the status is
+  stored) and for trailers of a stream whose response has begun (r->http_status
+  already set, left alone) alike: the call does not depend on the status.
+  `fields` = what was handed over before the refusal. -/
+def parseFrameAux (cap : Nat) (accept : Field → Bool) : Nat → Dec → Bytes → List Field → BlockRes
+  | 0, d, _, acc => ⟨acc.reverse, some .badData, d⟩
+  | fuel + 1, d, bs, acc =>
+    if bs = [] then ⟨acc.reverse, none, d⟩
+    else
+      match decodeItem cap d bs with
+      | .err e d' => ⟨acc.reverse, some e, d'⟩
+      | .upd rest d' => parseFrameAux cap accept fuel d' rest acc
+      | .fld f rest d' =>
+        if accept f then parseFrameAux cap accept fuel d' rest (f :: acc)
+        else
+          -- h2_discard_headers_frame(decoder, psrc, endp, r); break;
+          let r := decodeBlockAux cap fuel d' rest []
+          ⟨acc.reverse, r.err, r.dec⟩
+
+def parseFrame (cap : Nat) (accept : Field → Bool) (d : Dec) (bs : Bytes) : BlockRes :=
+  parseFrameAux cap accept (bs.length + 1) d bs []
+
 end LtVerif.H2Headers
